@@ -30,7 +30,9 @@ DESCRIPTION = {
     "rule": (
         "seeded scripts of 2-5 statements (CTAS / INSERT / INSERT with column list / CREATE VIEW / bare SELECT) over tables s.t1..s.t4 and "
         "base tables b.x1..b.x3 in which later statements read earlier targets through columns, aliases, expressions, *, t.* and "
-        "unqualified columns in a 2-relation scope; column names are unique per defining statement; provider in {none, SimProvider, "
+        "unqualified columns in a 2-relation scope, plus three fixed shapes (a table re-created by CTAS / VIEW between verbatim repeated "
+        "readers; a known table written again through a permuted column list and positionally; a table rewritten from itself directly / through "
+        "a derived table / CTE with the exact expected path set); column names are unique per defining statement; provider in {none, SimProvider, "
         "DummyMetaDataProvider} knowing a seeded subset of the base tables; both analyzers. Per statement the taps report its column "
         "pairs and the session traffic; the script's paths must equal the composition of the per-statement pairs and the session "
         "must follow the model. Distinct = distinct (script, provider); non-trivial iff a later statement consumed a column of an "
@@ -46,7 +48,7 @@ DESCRIPTION = {
         "deterministic in (script, metadata): the fault dimension is small - the hash seed, and in 30% of the runs an earlier analysis on the same provider object that was aborted by a bad statement after registering tables; provider stalls/failures and thread interleavings are decided under C12",
     ],
     "required_probes": {
-        "quick": ["chain_consumed", "wildcard_from_session", "unqualified_resolved_by_session", "end_at_intermediate", "session_lookup_hit", "paths_compared", "after_aborted_run", "recreated_by_ctas_or_view"],
+        "quick": ["chain_consumed", "wildcard_from_session", "unqualified_resolved_by_session", "end_at_intermediate", "session_lookup_hit", "paths_compared", "after_aborted_run", "recreated_by_ctas_or_view", "self_rewrite_paths_checked", "known_table_written_again"],
         "thorough": ["chain_consumed", "wildcard_from_session", "unqualified_resolved_by_session", "end_at_intermediate", "session_lookup_hit", "paths_compared"],
     },
 }
